@@ -33,7 +33,7 @@ def apply_doc_op(doc, op):
         d[op[1]] = norm(op[2])
     elif kind == "update":
         d.update(norm(op[1]))
-    elif kind == "reset":
+    elif kind in ("reset", "assign"):
         d = norm(op[1])
     elif kind == "clear":
         d = {}
@@ -42,8 +42,12 @@ def apply_doc_op(doc, op):
     return d
 
 
-def do_doc_op(handle, op):
+def do_doc_op(handle, op, owner=None):
     kind = op[0]
+    if kind == "assign":
+        # whole-document assignment through the property setter (job.doc = X / project.doc = X)
+        owner.doc = op[1]
+        return
     if kind == "setitem":
         handle[op[1]] = op[2]
     elif kind == "update":
@@ -122,7 +126,7 @@ class Engine(EngineBase):
                 elif w == "update":
                     op = ["update", {"u1": tag, "u2": gen_value(rng, 1)}]
                 elif w == "reset":
-                    op = ["reset", {"r": tag, **gen_doc(rng, "small")}]
+                    op = [rng.choice(["reset", "assign"]), {"r": tag, **gen_doc(rng, "small")}]
                 elif w == "reset_large":
                     big = gen_doc(rng, "large")
                     big["tag"] = tag
@@ -276,25 +280,25 @@ class Engine(EngineBase):
         if t == "projdoc":
             h = project.doc
             op = sc["docs"][0]["op"]
-            return lambda: do_doc_op(h, op)
+            return lambda: do_doc_op(h, op, project)
         handles = []
         for i, d in enumerate(sc["docs"]):
             job = project.open_job(sc["jobs"][i % len(sc["jobs"])])
-            handles.append((job.doc, d["op"]))
+            handles.append((job.doc, d["op"], job))
         if t == "jobdoc":
-            h, op = handles[0]
-            return lambda: do_doc_op(h, op)
+            h, op, job = handles[0]
+            return lambda: do_doc_op(h, op, job)
         cap = sc.get("capacity")
 
         def buffered():
             if cap is not None:
                 with signac.buffered(cap):
-                    for h, op in handles:
-                        do_doc_op(h, op)
+                    for h, op, job in handles:
+                        do_doc_op(h, op, job)
             else:
                 with signac.buffered():
-                    for h, op in handles:
-                        do_doc_op(h, op)
+                    for h, op, job in handles:
+                        do_doc_op(h, op, job)
 
         return buffered
 
